@@ -552,6 +552,10 @@ class Exec:
                     outs = h(self, st, func, args, dest_ty)
                 except Unmodelled as e:
                     st.notes.append(str(e)[:160]); break
+                except (AttributeError, KeyError, TypeError, IndexError) as e:
+                    # the summary met a shape it was not written for (e.g. a constant where it expects a heap value):
+                    # the call is havocked like an unknown callee, the path is marked
+                    st.notes.append(f'summary {getattr(h, "__name__", "?")} not applicable: {type(e).__name__} {str(e)[:80]}'); break
                 if outs is None:
                     continue
                 self.used_summaries[getattr(h, '__name__', 'summary') + ' <- ' + short(func)] = True
@@ -581,6 +585,12 @@ class Exec:
         self.unhandled[short(func)] = self.unhandled.get(short(func), 0) + 1
         st.havoc.append(short(func))
         v = self.fresh_value(st, dest_ty or '()', st.fresh_name('ret:' + short(func)))
+        if re.search(r'as (Iterator|DoubleEndedIterator)>::next(_back)?$', func) and isinstance(v, ObjV):
+            # an iterator the summaries do not know: it yields at most one (unconstrained) element, so that a loop over
+            # it cannot run to the visit bound with a fork at every round (the path is marked as havocked anyway)
+            k = sum(1 for h in st.havoc if h == short(func))
+            if k >= 2:
+                st.heap[v.oid]['discr'] = BV(z3.BitVecVal(0, 64), True)
         st.events.append(('call', func, args, v))
         if t.data['target'] is None:
             st.status = 'diverged'; return [st]
@@ -653,7 +663,10 @@ def sum_from_residual(ex, st, func, args, dest_ty):
     res = args[0]
     oid = st.new_obj(st.fresh_name('fromres'), dest_ty)
     st.heap[oid]['discr'] = BV(z3.BitVecVal(1, 64), True)
-    e = ex.load(st, res.oid, ('f', 'Err', 0), 'opaque')
+    if not isinstance(res, ObjV):          # a constant residual (`Err(fmt::Error)`)
+        e = ObjV(st.new_obj(st.fresh_name('consterr'), 'err'))
+    else:
+        e = ex.load(st, res.oid, ('f', 'Err', 0), 'opaque')
     w = st.new_obj(st.fresh_name('converted'), 'err')
     st.heap[w][('f', None, 0)] = e
     st.heap[oid][('f', 'Err', 0)] = ObjV(w)
